@@ -267,3 +267,19 @@ B("idiom-fastrlp-split_at-other-bound", ["C17"],
 N("idiom-mul_mod-private-helper", ["C04", "C10"],
   [("src/modular.rs", "    pub fn mul_mod(self, rhs: Self, mut modulus: Self) -> Self {\n        if modulus.is_zero() {\n            return Self::ZERO;\n        }\n",
     "    pub fn mul_mod(self, rhs: Self, modulus: Self) -> Self {\n        if modulus == Self::ZERO {\n            Self::ZERO\n        } else {\n            self.mul_mod_nonzero(rhs, modulus)\n        }\n    }\n\n    #[inline]\n    fn mul_mod_nonzero(self, rhs: Self, mut modulus: Self) -> Self {\n")])
+
+# ---- R-EQORD as necessary conditions
+N("eqord-handwritten-eq", ["C04"],
+  [("src/lib.rs", "#[derive(Clone, Copy, Eq, PartialEq, Hash)]", "#[derive(Clone, Copy, Eq, Hash)]\n#[allow(clippy::derived_hash_with_manual_eq)]"),
+   ("src/cmp.rs", "impl<const BITS: usize, const LIMBS: usize> Ord for Uint<BITS, LIMBS> {",
+    "impl<const BITS: usize, const LIMBS: usize> PartialEq for Uint<BITS, LIMBS> {\n    #[inline]\n    fn eq(&self, other: &Self) -> bool {\n        self.limbs == other.limbs\n    }\n}\n\nimpl<const BITS: usize, const LIMBS: usize> Ord for Uint<BITS, LIMBS> {")])
+B("eqord-handwritten-eq-low-limb-only", ["C04"],
+  [("src/lib.rs", "#[derive(Clone, Copy, Eq, PartialEq, Hash)]", "#[derive(Clone, Copy, Eq, Hash)]\n#[allow(clippy::derived_hash_with_manual_eq)]"),
+   ("src/cmp.rs", "impl<const BITS: usize, const LIMBS: usize> Ord for Uint<BITS, LIMBS> {",
+    "impl<const BITS: usize, const LIMBS: usize> PartialEq for Uint<BITS, LIMBS> {\n    #[inline]\n    fn eq(&self, other: &Self) -> bool {\n        self.limbs[..LIMBS.min(1)] == other.limbs[..LIMBS.min(1)]\n    }\n}\n\nimpl<const BITS: usize, const LIMBS: usize> Ord for Uint<BITS, LIMBS> {")],
+  "not-derived")
+N("eqord-handwritten-cmp-loop", ["C04"],
+  [("src/cmp.rs", "        crate::algorithms::cmp(self.as_limbs(), rhs.as_limbs())",
+    "        let mut i = LIMBS;\n        while i > 0 {\n            i -= 1;\n            match self.limbs[i].cmp(&rhs.limbs[i]) {\n                Ordering::Equal => {}\n                other => return other,\n            }\n        }\n        Ordering::Equal")])
+B("eqord-cmp-args-swapped", ["C04"],
+  [("src/cmp.rs", "        crate::algorithms::cmp(self.as_limbs(), rhs.as_limbs())", "        crate::algorithms::cmp(rhs.as_limbs(), self.as_limbs())")], "R-EQORD")
